@@ -57,3 +57,13 @@ package adapter
 //@   requires[inv] p != nil && tag(p.cdc) != 0
 //@   ensures[C15] err == nil ==> jsonOK(strbytes(jsonString)) && jsonNumKeys(strbytes(jsonString)) == 1
 //@   ensures[C15] err == nil ==> jsonKeys(strbytes(jsonString))["orbiter"] && tag(jsonVals(strbytes(jsonString))["orbiter"]) != 0
+
+// ---------------------------------------------------------------------------------------------
+// Object invariants: the injected dependencies are present. Proved on the constructors (which end in
+// Validate), protected by the scan typeinv#immutable (no allocation or field store outside them).
+// Panic freedom (C14, C11, C17) may rely on them for every non-nil controller.
+// ---------------------------------------------------------------------------------------------
+//@ macro ibcAdapterWF(a) = a.logger != nil && a.BaseController != nil && a.parser != nil && tag(a.parser.JSONParser.cdc) != 0
+//@ typeinv IBCAdapter ibcAdapterWF NewIBCAdapter
+//@ func NewIBCAdapter(cdc, logger) (result, err)
+//@   ensures[C11,C14,C17] err == nil ==> result != nil && ibcAdapterWF(result)
